@@ -212,22 +212,7 @@ func c01Exec(raw json.RawMessage, res *RunResult) {
 		}
 		switch c.Kind {
 		case "run", "parse":
-			parsedOK = o.Panic == "" && (o.Err == "" || vm.Error == nil || !strings.Contains(o.Err, "Syntax") && !strings.Contains(o.Err, "语法") && c.Kind == "run" && vm.Ret != nil)
-			if c.Kind == "parse" {
-				parsedOK = o.Panic == "" && o.Err == ""
-			}
-		}
-		if m.Huge != "" {
-			res.Probe("huge_string_cancelled")
-			if sc.Cfg.OpLimit > 0 {
-				res.Violate("resource:string-over-8MiB-within-budget@"+m.Huge, "command %d built a string of more than 8 MiB after %d ticks although OpCountLimit=%d is configured: memory is not bounded by the budget\n  src=%q", i, m.Ticks, sc.Cfg.OpLimit, trunc(c.Src, 300))
-			}
-		}
-		if o.Extra == "huge-result" {
-			res.Probe("huge_result_not_printed")
-			if sc.Cfg.OpLimit > 0 {
-				res.Violate("resource:result-print-size-exponential", "command %d returned, within OpCountLimit=%d, a value whose printed form has %d nodes (sub-structures shared by reference): ToString/ToRepr/ToJSON/GetDetailText on it exhaust time and memory\n  src=%q", i, sc.Cfg.OpLimit, ExpandedSize(vm.Ret), trunc(c.Src, 300))
-			}
+			parsedOK = o.Parsed && o.Panic == ""
 		}
 		if o.Panic != "" {
 			res.Violate(o.Panic, "command %d (%s) panicked in %s\n  src=%q\n  cfg=%+v", i, c.Kind, o.PanicAt, trunc(c.Src, 300), sc.Cfg)
